@@ -161,7 +161,13 @@
   }
   const S = (v) => ser(v, 4, []);
 
+  // domain decision only: a host interaction that happens with (almost) no stack left means the input is running into the
+  // engine's stack limit (unbounded recursion whose RangeError it catches); WHERE the overflow strikes depends on the frame
+  // sizes of the text, so such programs are not deterministic in the property's sense
+  let stackSeen = false;
+  function depthProbe(n) { return n <= 0 ? 0 : depthProbe(n - 1) + 1; }
   function record(entry) {
+    if (!stackSeen) { try { depthProbe(400); } catch (e) { stackSeen = true; } }
     if (log.length >= BUDGET) throw BUDGET_TOKEN;
     log.push(entry);
   }
@@ -414,7 +420,7 @@
         try { s = S(api.lexget(k)); } catch (e) { s = 'unreadable:' + S(e); }
         out.push(['lex:' + k, s]);
       }
-      return JSON.stringify({ calls: log, globals: out, tdz: tdzSeen });
+      return JSON.stringify({ calls: log, globals: out, tdz: tdzSeen, stack: stackSeen });
     },
     serThrown(e) {
       if (e === BUDGET_TOKEN) return JSON.stringify(['throw', 'budget', '']);
